@@ -191,7 +191,7 @@ theorem key_is_kB {k : Key} (hq : k.peer = p.peerA) (hi : k.id = p.id) : k = p.k
 
 theorem B_segReq (g : p.Geo cfgA cfg devA dev) {now : Nat} {k : Key} {b : Body} {a : Apdu}
     (hsi : (specB p cfg dev).SI k b) (hst : b.st = .segReq) (hid : a.invokeId = k.id)
-    (hf : k = p.kB → p.ReqFrame a) :
+    (hf : k = p.kB → p.ReqFrameN (NearIdx p.TP b) a) :
     Local.HRes (specB p cfg dev).SI (specB p cfg dev).OO k (serverSegmentedRequest cfg now k b a) := by
   have hh := SIB_held hsi
   obtain ⟨c, hctx, hcid, hbuf⟩ := hsi.2.1 hst
@@ -229,10 +229,11 @@ theorem B_segReq (g : p.Geo cfgA cfg devA dev) {now : Nat} {k : Key} {b : Body} 
           intro h1
           have := ((hgen h0 (by rw [hid, hk]; rfl)).1 h1).1
           rw [hseg] at this; cases this
-        obtain ⟨_, i, hi⟩ := (hgen h0 (by rw [hid, hk]; rfl)).2 hn1
-        obtain ⟨c', j, w', hc', hj, hl, hd, hw'⟩ := hbuf hk
+        obtain ⟨_, i, hi, hnear⟩ := (hgen h0 (by rw [hid, hk]; rfl)).2 hn1
+        obtain ⟨j, c', w', hc', hj, hl, hd, hw'⟩ := hbuf hk
+        have hnj := hnear j ⟨c', w', hc', hj, hl, hd, hw'⟩
         rw [hctx] at hc'; cases hc'
-        have hij : i = j + 1 := next_index g.leP hi hj (by rw [hs, hl])
+        have hij : i = j + 1 := next_index hi hnj (by rw [hs, hl])
         subst hij
         cases hm : a.mor with
         | false =>
@@ -253,8 +254,8 @@ theorem B_segReq (g : p.Geo cfgA cfg devA dev) {now : Nat} {k : Key} {b : Body} 
             have hm' := hi.mor
             rw [hm] at hm'
             have hlt : j + 1 + 1 < p.TP.count := by simpa using hm'.symm
-            refine ⟨_, j + 1, w, hb1, hlt, ?_, ?_, hb4.trans hw⟩
-            · rw [hb2, hl]; exact Nat.mod_eq_of_lt (by have := g.leP; simp only [Params.TP] at hlt; omega)
+            refine ⟨j + 1, _, w, hb1, hlt, ?_, ?_, hb4.trans hw⟩
+            · rw [hb2, hl]; omega
             · show c.data ++ a.data = _
               rw [hd]; exact buf_append hi
           · intro o ho'; rw [ho o ho']; exact hack _ _
@@ -280,13 +281,14 @@ theorem B_segReq (g : p.Geo cfgA cfg devA dev) {now : Nat} {k : Key} {b : Body} 
       refine some_res (SIB_segReq (hb3.trans hst) ⟨c, hb1.trans hctx, hcid, ?_⟩ (HeldB_same hh hcap))
         (all_one (hack _ _))
       intro hk
-      obtain ⟨c', j, w', hc', hj, hl, hd, hw'⟩ := hbuf hk
-      exact ⟨c', j, w', hb1.trans hc', hj, hb2.trans hl, hd, hb4.trans hw'⟩
+      obtain ⟨j, c', w', hc', hj, hl, hd, hw'⟩ := hbuf hk
+      exact ⟨j, c', w', hb1.trans hc', hj, hb2.trans hl, hd, hb4.trans hw'⟩
 
 /-! ### AWAIT_RESPONSE, the dispatcher -/
 
 theorem B_indication (g : p.Geo cfgA cfg devA dev) {now : Nat} {k : Key} {b : Body} {a : Apdu}
-    (hsi : (specB p cfg dev).SI k b) (hid : a.invokeId = k.id) (hf : k = p.kB → p.ReqFrame a) :
+    (hsi : (specB p cfg dev).SI k b) (hid : a.invokeId = k.id)
+    (hf : k = p.kB → p.ReqFrameN (NearIdx p.TP b) a) :
     Local.HRes (specB p cfg dev).SI (specB p cfg dev).OO k (serverIndication cfg now k b a) := by
   unfold serverIndication
   split
@@ -304,7 +306,7 @@ theorem B_indication (g : p.Geo cfgA cfg devA dev) {now : Nat} {k : Key} {b : Bo
 /-! ### IDLE: a ConfirmedRequest opens the transaction -/
 
 theorem B_idle (g : p.Geo cfgA cfg devA dev) {now : Nat} {k : Key} {a : Apdu} (h0 : a.ty = 0)
-    (hid : a.invokeId = k.id) (hf : k = p.kB → p.ReqFrame a) :
+    (hid : a.invokeId = k.id) (hf : k = p.kB → p.ReqFrameN (fun i => i < 256) a) :
     Local.HRes (specB p cfg dev).SI (specB p cfg dev).OO k
       (serverIdle cfg now (promote a.sa (heldOf dev k (newBodyD cfg dev k.peer))) k
         (newBodyD cfg dev k.peer) a) := by
@@ -328,7 +330,7 @@ theorem B_idle (g : p.Geo cfgA cfg devA dev) {now : Nat} {k : Key} {a : Apdu} (h
     have gen : k.peer = p.peerA → a.invokeId = p.id → Genuine p.TP a := by
       intro hq hi
       have hk := key_is_kB hq (hid.symm.trans hi)
-      exact (hf hk h0 hi).1
+      exact (hf hk h0 hi).1.genuine
     split
     · -- unsegmented request: indicated at once
       rename_i hns
@@ -356,11 +358,11 @@ theorem B_idle (g : p.Geo cfgA cfg devA dev) {now : Nat} {k : Key} {a : Apdu} (h
           have hg := (hf hk h0 hidp).1 h0 hidp
           have hn1 : p.TP.count ≠ 1 := by
             intro h1; have := (hg.1 h1).1; rw [hseg'] at this; cases this
-          obtain ⟨_, i, hi⟩ := hg.2 hn1
-          have hi0 : i = 0 := first_index g.leP hi hseq'
+          obtain ⟨_, i, hi, hlt⟩ := hg.2 hn1
+          have hi0 : i = 0 := first_index hi hlt hseq'
           subst hi0
           have hpos := g.wfP.pos
-          refine ⟨a, 0, min a.win cfg.window, rfl, by omega, rfl, ?_, rfl⟩
+          refine ⟨0, a, min a.win cfg.window, rfl, by omega, rfl, ?_, rfl⟩
           rw [hi.data]; simp [slicesUpTo]
 
 /-! ### the application answers -/
